@@ -76,16 +76,15 @@ func (s *c14Sys) describe(e clustermc.Ev) string {
 func (s *c14Sys) Events() []clustermc.Ev {
 	var evs []clustermc.Ev
 	for c, conn := range s.Conns {
-		if conn.gone {
-			continue
-		}
+		// a connection that has gone away can be replaced by a NEW connection of the same client
+		// (the first subscribe command after the disconnect opens it)
 		for i := range c14Channels {
 			evs = append(evs, clustermc.Ev{K: "sub", A: c, B: i})
 		}
 		for i := range c14Patterns {
 			evs = append(evs, clustermc.Ev{K: "psub", A: c, B: i})
 		}
-		if conn.srv != nil { // only a connection that has subscribed once is in subscriber mode
+		if conn.srv != nil && !conn.gone { // only a connection that has subscribed once is in subscriber mode
 			for i := range c14Channels {
 				evs = append(evs, clustermc.Ev{K: "unsub", A: c, B: i})
 			}
@@ -108,6 +107,9 @@ func (s *c14Sys) Events() []clustermc.Ev {
 // are read by that runner.
 func (s *c14Sys) send(c *c14Conn, args ...string) string {
 	m := s.Cl.Members[c.member]
+	if c.gone {
+		c.srv, c.gone = nil, false // a new connection
+	}
 	if c.srv == nil {
 		c.srv = simnet.NewSrvConn(fmt.Sprintf("sub-conn-%d", len(args)))
 		cmd := redcon.Command{}
